@@ -236,8 +236,7 @@ func FromChStyle(v string) (int64, error) {
 		return 0, err
 	}
 	var t = time.Date(year, time.Month(es[0]), es[1], es[2], es[3], es[4], ms*MsDivNs, timeLoc)
-	var ns = t.UnixNano()
-	var tms = ns/MsDivNs - _epoch
+	var tms = t.UnixMilli() - _epoch
 	var timeShift = _nodeBits + StepBits
 	var id = tms << timeShift
 	id |= int64(left)
